@@ -5,6 +5,8 @@ import NmfuModel.NoSpin
 import NmfuModel.Labels
 import NmfuModel.Cli
 import NmfuModel.Lit
+import NmfuModel.SrcParse
+import NmfuModel.EquivF
 import NmfuModel.Generated.Flags
 open Nmfu
 
@@ -31,17 +33,19 @@ def fmtAEv : AEv → String
   | .setStr o bs => s!"setstr:{o}:{bs}"
   | .delete o => s!"delete:{o}"
   | .brk => "brk"
+  | .opt a => "opt(" ++ fmtAEv a ++ ")"
+  | .raised => "RAISED"
 
 def fmtEv : MEv → String
   | .act a => fmtAEv a
   | .asked (.cond e) v => s!"ask:cond:{hash e}={v}"
   | .asked (.full o) v => s!"ask:full:{o}={v}"
 
-def fmtLeaf : Leaf → String
+def fmtLeaf : Leaf Nat → String
   | .next s => s!"next:{s}"
   | .halt => "halt"
 
-def fmtPS (p : PS AEv Quest) : String :=
+def fmtPS (p : PS Nat Nat AEv Quest) : String :=
   s!"a={p.a} b={p.b} aLeads={p.aLeads} lag=[{" ".intercalate (p.lag.map fmtEv)}]"
 
 def fmtPaths (t : MTree) : String :=
@@ -256,6 +260,47 @@ def cmdLit (args : List String) : String :=
     | _ => "error bad-kind"
   | _ => "error bad-args"
 
+def fmtFrame : Frame → String
+  | .run b p => s!"run({b},{p})"
+  | .m _ _ => "match"
+  | .w _ _ => "wait"
+  | .c _ _ alts _ => s!"case[{alts.length}]"
+  | .loopMark id _ => s!"loop{id}"
+  | .tryMark _ _ h => s!"try->{h}"
+
+def fmtPathsS (t : STree) : String :=
+  " ; ".intercalate (t.paths.map fun p => (" ".intercalate (p.1.map fmtEv)) ++ " => " ++
+    (match p.2 with | .next K => "next[" ++ ",".intercalate (K.map fmtFrame) ++ "]" | .halt => "halt"))
+
+/-- reference semantics of a source program vs the compiled machine -/
+def cmdRefine (args : List String) : String :=
+  match args with
+  | [sd, sl, lim, ps, ms] =>
+    match parseProg ps, parseMachine ms with
+    | .ok p, .ok M =>
+      let o : SemOpts := { strictDone := sd.startsWith "1", substLast := sl = "1", dropLoose := sd.endsWith "L" }
+      let spec := Src.sm p o
+      let mach := M.smS o
+      let r := explore spec mach nSym lim.toNat!
+      let strictOK := r.mismatch.isNone && !r.outOfFuel && certOK spec mach nSym r.visited.toList
+      if strictOK then s!"closed visited={r.visited.size} maxlag={r.maxLag} cert=true"
+      else if r.outOfFuel then s!"fuel visited={r.visited.size}"
+      else
+        -- relaxed rule: actions pending when an error strikes may or may not have run
+        let spec := Src.sm p o true
+        let r2 := exploreWith (stepCheckF spec mach) spec mach nSym lim.toNat!
+        match r2.mismatch with
+        | some (w, ps, x) =>
+          s!"mismatch word={symStr w} sym={x} spec=[{",".intercalate ((ps.a.getD []).map fmtFrame)}] mach={ps.b} aLeads={ps.aLeads} lag=[{" ".intercalate (ps.lag.map fmtEv)}] treeSpec={fmtPathsS (spec.tree ps.a x)} treeMach={fmtPaths (mach.tree ps.b x)}"
+        | none =>
+          if r2.outOfFuel then s!"fuel visited={r2.visited.size}"
+          else
+            let ok := certOKF spec mach nSym r2.visited.toList
+            s!"closed-relaxed visited={r2.visited.size} maxlag={r2.maxLag} cert={ok}"
+    | .error e, _ => s!"error parseProg {e}"
+    | _, .error e => s!"error parseMachine {e}"
+  | _ => "error bad-args"
+
 def handle (line : String) : String :=
   match splitBar line with
   | "equiv" :: args => cmdEquiv args
@@ -266,6 +311,7 @@ def handle (line : String) : String :=
   | "labels" :: args => cmdLabels args
   | "cli" :: args => cmdCli args
   | "lit" :: args => cmdLit args
+  | "refine" :: args => cmdRefine args
   | "ping" :: _ => "pong"
   | _ => "error unknown-command"
 
